@@ -156,6 +156,13 @@ impl<'a, P: ?Sized + PathImpl> PathMutImpl<'a, P> {
 				// SOLUTION:  We write `/./`, as `parent` does.
 				replace(self.buffer, start..self.end, b"./");
 				self.end = start + 2;
+			} else if &self.buffer[start..i] == CURRENT_SEGMENT
+				&& (i + 1 == self.end || self.buffer[i..self.end].contains(&b':'))
+			{
+				// The `.` segment was only shielding the removed segment
+				// (see `push`), it goes with it.
+				replace(self.buffer, start..self.end, &[]);
+				self.end = start;
 			} else {
 				replace(self.buffer, i..self.end, &[]);
 				self.end = i;
